@@ -1,8 +1,8 @@
 SPECIFICATION Spec
 CONSTANTS
- Small = FALSE
+ Small = TRUE
  Msgs <- MCMsgs
- RL = 0
+ RL = 1
  MaxLoss = 2
  MaxT3 = 2
  SkipGapAcked = FALSE
